@@ -591,6 +591,13 @@ static std::string exec_line(World*& W, long lineno, const std::string& line) {
         J.kvraw("map", jblockmap(F)); J.kvraw("parts", jfieldop(F)); J.kvi("index", F.getIndex());
         return J.done();
     }
+    if (cmd == "opmap") {   // opmap c|cdag i  |  opmap quad i j : block mapping after prepare() only
+        std::string kind = t.word(); long i = t.l();
+        if (kind == "c") { AnnihilationOperator F(W->ic(), W->s(), W->h(), i); F.prepare(); J.kvraw("map", jblockmap(F)); }
+        else if (kind == "cdag") { CreationOperator F(W->ic(), W->s(), W->h(), i); F.prepare(); J.kvraw("map", jblockmap(F)); }
+        else { long j = t.l(); QuadraticOperator F(W->ic(), W->s(), W->h(), i, j); F.prepare(); J.kvraw("map", jblockmap(F)); }
+        return J.done();
+    }
     if (cmd == "quadop") {
         long i = t.l(), j = t.l();
         QuadraticOperator& F = W->quad_op(i, j);
